@@ -194,25 +194,11 @@ def run(ctx):
             f = fp[0]
             r = strip_sym(Sym(f).local(0))
             pv = strip_sym(r[3][r[4].index("patterns")]) if r[0] == "agg" and "patterns" in (r[4] or ()) else None
-            ok = False
-            why = "the patterns field is not collect()ed from the parameter"
-            if pv is not None and sym_is_call(pv, "Iterator::collect"):
-                chain = []
-                cur = strip_sym(pv[2][0])
-                mapf = None
-                while cur[0] == "call":
-                    n_ = strip_generics(cur[1]).split("::")[-1]
-                    chain.append(n_)
-                    if n_ == "map":
-                        mapf = strip_sym(cur[2][1])
-                    cur = strip_sym(cur[2][0])
-                ok = is_param(cur, 0) and set(chain) <= {"map", "into_iter", "iter", "cloned", "copied"}
-                why = f"elements go through {chain}"
-                if ok and mapf is not None:
-                    cf = u.fn(mapf[5]) if mapf[0] == "agg" and mapf[1] == "closure" else None
-                    tr = transformations(Sym(cf).local(0)) if cf else None
-                    ok = tr == []
-                    why = f"each pattern is passed through {tr}"
+            from props.common import collected_unchanged
+
+            ok, why = (False, "the patterns field is not built from the parameter")
+            if pv is not None:
+                ok, why = collected_unchanged(u, pv, 0, fn=f)
             chk.ob("C13.c", f.path, ok, "from_patterns keeps every given pattern as it is" if ok else f"from_patterns does not keep every pattern unchanged ({why})", f.loc(), nontrivial=False)
 
     # ---------------- C13.d router
